@@ -57,6 +57,7 @@ type Engine struct {
 	useQuant  bool
 	useLE     bool
 	useStrIdx bool
+	useStrLe  bool
 	useRes    bool
 	useCRC    bool
 	specErrs  []string
@@ -168,6 +169,16 @@ func (e *Engine) ob(f *frame, kind, label string, tags []string, pc, cond string
 		return
 	}
 	o := &Oblig{Func: funcKey(e.unit), In: funcKey(f.fn), Kind: kind, Label: label, Tags: tags, PC: pc, Cond: cond, Pos: e.w.prog.Fset.Position(pos), nf: len(e.facts)}
+	e.obs = append(e.obs, o)
+}
+
+// obSyntactic records a site the generator inspected and found in order (decided without a solver).
+func (e *Engine) obSyntactic(f *frame, kind, label string, tags []string, pos token.Pos) {
+	if e.quiet {
+		return
+	}
+	o := &Oblig{Func: funcKey(e.unit), In: funcKey(f.fn), Kind: kind, Label: label, Tags: tags, PC: "true", Cond: "true", Pos: e.w.prog.Fset.Position(pos), nf: len(e.facts),
+		Status: "unsat", Solver: "syntactic"}
 	e.obs = append(e.obs, o)
 }
 
